@@ -161,6 +161,34 @@ def run_index(seed, tier, i, tmpdir):
                 if rn not in notations:
                     out["fidelity_mismatch"] += 1
                     out["fidelity_example"] = {"real": rn, "stub": sorted(notations)[:8]}
+    # probe (never judged here - it is C16's subject): every optimum the code turned into a notation should
+    # also be a member of all_dot_brackets (an optimal assignment is greedy-stable); only for small components,
+    # because all_dot_brackets enumerates permutations
+    out["probe_checked"] = out["probe_missing"] = 0
+    if knotted and notations and not out["violations"]:
+        stl = oracles.stems(pairs)
+        adj = oracles.conflict_graph(stl)
+        seen, biggest = set(), 0
+        for a0 in range(len(stl)):
+            if a0 in seen:
+                continue
+            todo, size = [a0], 0
+            seen.add(a0)
+            while todo:
+                x = todo.pop()
+                size += 1
+                for y in adj[x]:
+                    if y not in seen:
+                        seen.add(y)
+                        todo.append(y)
+            biggest = max(biggest, size)
+        if biggest <= 6:
+            try:
+                listed = {d.structure for d in solve_engine.make_bpseq(st["triples"]).all_dot_brackets}
+                out["probe_checked"] = len(notations)
+                out["probe_missing"] = sum(1 for x in notations if x not in listed)
+            except Exception:  # noqa: BLE001 - a probe never fails the run
+                out["probe_missing"] = -1
     out["digest"] = rng.digest(digests)
     if i % 211 == 0 or (knotted and i % 53 == 0):
         out["sample"] = {"run_index": i, "family": st["family"], "fcfs": structures.structure_string(st["triples"]),
@@ -212,7 +240,10 @@ def coverage_doc(results, tier):
     samples = []
     fidelity_examples = []
     max_opt = 0
+    probe_checked = probe_missing = 0
     for r in results:
+        probe_checked += max(0, r.get("probe_checked", 0))
+        probe_missing += max(0, r.get("probe_missing", 0))
         cov.update(r["coverage"])
         steps += r["steps"]
         knotted += 1 if r["knotted"] else 0
@@ -253,6 +284,10 @@ def coverage_doc(results, tier):
         "optima_enumeration_truncated": truncated,
         "discarded_steps": discards,
         "stub_fidelity_mismatches_vs_real_cbc": fidelity,
+        "probes": {"optimal_notations_checked_against_all_dot_brackets": probe_checked,
+                   "optimal_notations_missing_from_all_dot_brackets": probe_missing,
+                   "note": "cross-invariant with C16 (an optimal assignment is greedy-stable, hence listed); a probe, "
+                           "never part of the exit code"},
         "stub_fidelity_examples": fidelity_examples,
         "fault_kinds_fired": dict(sorted(counters.items())),
         "simulated_time": "none: no anchored code path reads a clock",
